@@ -187,6 +187,22 @@ def gen_reader_cases(ctx, consts):
                         parts = [(padb, npad), (stext + "=q tail").encode(codec)]
                         add("suppname-%s" % sname, enc, "10", 100, rng.choice(["0", "4096", "1:16384"]), parts,
                             ["G%d" % npad] + name_scripts[kk % 3])
+    # low-water mark 0 / 1: markup openers tested with skippedString / peekString near the raw-buffer boundary AFTER an earlier
+    # opener straddled the 16K refill (so the character buffer is out of step with the raw buffer by S characters)
+    openers = ["<!--", "<![CDATA[", "]]>", "<?", "\r\nq"]
+    nlw = 0
+    for S in (1, 2, 3, 5):
+        for oi, op2 in enumerate(openers):
+            for d in (range(-10, 7) if thorough else range(-10, 7, 2)):
+                nlw += 1
+                enc = "utf8" if nlw % 3 else "latin1"
+                p1 = CB - S
+                tok1 = "<!--c-->"
+                pos2 = RB + d
+                p2 = pos2 - p1 - len(tok1)
+                parts = [(b"x", p1), tok1.encode(), (b"y", p2), op2.encode() + b"tail"]
+                ops = ["G%d" % p1, "s" + units_hex("<!--"), "G%d" % (4 + p2), "k" + units_hex(op2[:3]), "s" + units_hex(op2.rstrip("q")), "P", "G"]
+                add("lowwater-%d" % (nlw % 2), enc, "10", nlw % 2, rng.choice(["0", "4096", "1:49152"]), parts, ops)
     # random byte strings (ill-formed sequences included) on small documents, all encodings, many chunkings
     for _ in range(1200 if not thorough else 20000):
         enc = rng.choice(encs)
@@ -1022,6 +1038,140 @@ def run(ctx):
                                            "icu_encodings": [e[0] for e in icu_ok], "icu_split_requests": len(xl), "icu_split_bad": nx_bad}
     ctx.note("names/ICU alignment: %d groups, %d parses, %d differing; ICU encodings %s, %d split requests (%d bad), %.1fs"
              % (len(agroups), len(alines), nal_bad, [e[0] for e in icu_ok], len(xl), nx_bad, time.time() - t3c))
+    # ---- 3d. the same TEXT in every encoding variant (UTF-8, UTF-16 LE/BE, UCS-4 LE/BE, each with and without byte order
+    #          mark, with and without XML declaration where auto-sensing allows it) must give the same dump: tiny documents
+    #          (the last character matters), documents larger than the raw buffer, constructs at the raw-buffer boundary of
+    #          each encoding
+    t3d = time.time()
+    RBd, CBd = consts["kRawBufSize"], consts["kCharBufSize"]
+    texts = []
+    for body in ("<r/>", "<r>t</r>", '<r a="1">\u00e9</r>', "<r><e/></r><!--c-->", "<r>t</r><?p d?>"):
+        texts.append(("tiny", body))
+        texts.append(("tiny-nl", body + "\n"))
+    for cons in ("<e>t</e>", "\u00e9\U00010348", "<ee a='1'/>", "</r", "<!--c-->", "a\r\nb"):
+        for unit in (4, 2):
+            for d in ((-2, -1, 0, 1) if not thorough_ else range(-4, 5)):
+                # the construct starts d characters around the raw-buffer boundary of an encoding with `unit` bytes per character
+                # (declaration of 40..42 characters and a possible BOM shift it by a few more positions: both neighbours are swept)
+                n = RBd // unit - 45 + d * 2
+                texts.append(("raw-%d" % unit, "<r>" + "x" * n + cons + ("" if cons == "</r" else "tail") + ("></r>" if cons == "</r" else "</r>")))
+    texts.append(("big", "<r>" + ("x" * 997 + "<e a='v'>\u00e9</e>\r\n") * 70 + "</r>"))
+    variants = []
+    for codec, encname in (("utf-8", "UTF-8"), ("utf-16-le", "UTF-16"), ("utf-16-be", "UTF-16"), ("utf-32-le", "UCS-4"), ("utf-32-be", "UCS-4")):
+        for bom in (False, True):
+            for decl in (True, False):
+                if not decl and not (bom or codec == "utf-8"):
+                    continue      # without declaration and byte order mark only UTF-8 can be recognised
+                if not decl and codec.startswith("utf-32"):
+                    continue
+                variants.append((codec, encname, bom, decl))
+    elines = []
+    egroups = []
+    for kind, text in texts:
+        idx = []
+        for codec, encname, bom, decl in variants:
+            t = ('<?xml version="1.0" encoding="%s"?>\n' % encname if decl else "\n") + text
+            b = (("\ufeff" if bom else "") + t).encode(codec)
+            idx.append(len(elines))
+            elines.append("doc I1 mem 0 " + hx(b))
+        # one chunked parse of a seeded variant
+        codec, encname, bom, decl = ctx.rng.choice(variants)
+        t = ('<?xml version="1.0" encoding="%s"?>\n' % encname if decl else "\n") + text
+        elines.append("doc I1 chunk %s %s" % (ctx.rng.choice(["1", "3", "4096", "49151"]), hx((("\ufeff" if bom else "") + t).encode(codec))))
+        idx.append(len(elines) - 1)
+        egroups.append((kind, text, idx))
+    rc, eout, eerr = run_bin(xh, elines, env=henv, timeout=900)
+    nenc_bad = 0
+    if rc != 0 or len(eout) != len(elines):
+        ctx.violation("harness-crash", {"what": "document-level harness crashed on the encoding-variant documents", "rc": rc,
+                                        "stderr": eerr, "request": elines[len(eout)] if len(eout) < len(elines) else None})
+    else:
+        for kind, text, idx in egroups:
+            ref = eout[idx[0]]
+            for j in idx[1:]:
+                ctx.count()
+                ctx.distinct((kind, len(text), j - idx[0]))
+                if eout[j] != ref:
+                    nenc_bad += 1
+                    if nenc_bad <= 4:
+                        vj = variants[j - idx[0]] if j - idx[0] < len(variants) else "chunked"
+                        ctx.violation("encoding-dependence", {"requests": [elines[idx[0]], elines[j]], "variant": str(vj), "kind": kind,
+                                                              "utf8": ref[:400], "other": eout[j][:400],
+                                                              "what": "the same text in another encoding / byte-order-mark variant (or read in "
+                                                                      "chunks) gives a different result"})
+    ctx.coverage["encoding_variants"] = {"texts": len(texts), "variants": len(variants), "parses": len(elines), "differing": nenc_bad}
+    ctx.note("encoding variants: %d texts x %d variants, %d parses, %d differing, %.1fs" % (len(texts), len(variants), len(elines), nenc_bad,
+                                                                                           time.time() - t3d))
+
+    # ---- 3e. low-water mark 0 / 1 / default: markup openers and CR LF at every offset within +-6 of the character-buffer
+    #          refills and -10..+6 of the raw-buffer boundary, also after an EARLIER opener straddled the 16K refill with S spare
+    #          characters.  Padding is white space inside start tags (ends with a line feed): it is not part of the dump, so every
+    #          variant must give exactly the answer of the 5-space variant
+    t3e = time.time()
+    toks = ["<!--c-->", "<![CDATA[c]]>", "a]]>b", "<?pi d?>", "\r\nq", "<![CDATA[]]]]>", "<!-- - -->"]
+    llines = []
+    lgroups = []
+
+    def lw_doc(p1, tok1, p2, tok2):
+        return spec_of([b"<r", (b" ", p1), b"\n>" + tok1.encode() + b"<e", (b" ", p2), b"\n/>" + tok2.encode() + b"t</r>"])
+    combos = []
+    for S in (1, 2, 3, 5):
+        for ti, tok2 in enumerate(toks):
+            tok1 = toks[(ti + S) % 2]
+            start1 = CBd - S
+            p1 = start1 - 4
+            for d in range(-10, 7):
+                start2 = RBd + d
+                p2 = start2 - (start1 + len(tok1) + 2) - 3
+                combos.append((tok1, tok2, p1, p2))
+    for ti, tok2 in enumerate(toks):
+        for T in (CBd, 2 * CBd):
+            for d in range(-6, 7):
+                p1 = 5
+                tok1 = "<!--c-->"
+                p2 = T + d - (2 + p1 + 2 + len(tok1) + 2) - 3
+                combos.append((tok1, tok2, p1, p2))
+    if not thorough_:
+        ctx.rng.shuffle(combos)
+        combos = combos[:330]
+    base_cache = {}
+    for k, (tok1, tok2, p1, p2) in enumerate(combos):
+        lw = (0, 1, 1, 0, 100)[k % 5]
+        cfgl = "%s1L%d" % ("IWDS"[k % 4], lw)
+        key = (tok1, tok2, cfgl)
+        if key not in base_cache:
+            base_cache[key] = len(llines)
+            llines.append("doc %s mem 0 %s" % (cfgl, lw_doc(5, tok1, 5, tok2)))
+        im = len(llines)
+        llines.append("doc %s mem 0 %s" % (cfgl, lw_doc(p1, tok1, p2, tok2)))
+        ic = None
+        if k % 5 == 2:
+            ic = len(llines)
+            llines.append("doc %s chunk %s %s" % (cfgl, ctx.rng.choice(["4096", "1:49152", "49151", "16385"]), lw_doc(p1, tok1, p2, tok2)))
+        lgroups.append((key, base_cache[key], im, ic, (p1, p2)))
+    rc, lout, lerr = run_bin(xh, llines, env=henv, timeout=900)
+    nlw_bad = 0
+    if rc != 0 or len(lout) != len(llines):
+        ctx.violation("harness-crash", {"what": "document-level harness crashed on the low-water-mark documents", "rc": rc,
+                                        "stderr": lerr, "request": llines[len(lout)] if len(lout) < len(llines) else None})
+    else:
+        for key, ib, im, ic, pads in lgroups:
+            ctx.count()
+            ctx.distinct((key, pads))
+            if lout[im] != lout[ib]:
+                nlw_bad += 1
+                if nlw_bad <= 4:
+                    ctx.violation("alignment-dependence", {"requests": [llines[ib], llines[im]], "template": "lowwater %s" % (key,),
+                                                           "padding": pads, "baseline": lout[ib][:400], "padded": lout[im][:400],
+                                                           "what": "with this low-water mark the result depends on where the markup falls "
+                                                                   "relative to the reader's refill points (white-space padding inside tags)"})
+            if ic is not None and lout[ic] != lout[im]:
+                nlw_bad += 1
+                if nlw_bad <= 4:
+                    ctx.violation("chunk-dependence", {"requests": [llines[im], llines[ic]], "one_shot": lout[im][:400], "other": lout[ic][:400],
+                                                       "kind": "lowwater", "what": "same document, different read sizes: different dump"})
+    ctx.coverage["low_water_alignment"] = {"documents": len(lgroups), "parses": len(llines), "differing": nlw_bad}
+    ctx.note("low-water alignment: %d documents, %d parses, %d differing, %.1fs" % (len(lgroups), len(llines), nlw_bad, time.time() - t3e))
     ctx.coverage["document_level"] = {"documents": len(groups), "parses": len(dlines) + nstdin, "documents_with_errors": nerr,
                                       "violations": dviol, "stdin_parses": nstdin, "kinds": dk}
     ctx.note("document-level: %d documents, %d parses, %d differing, %.1fs" % (len(groups), len(dlines) + nstdin, dviol,
